@@ -74,7 +74,12 @@ type hdr struct {
 
 // parseHdr reads one DER identifier+length (X.690 8.1.2, 8.1.3, 10.1): minimal
 // tag form, definite minimal length of at most 3 length octets.
-func parseHdr(b []byte, off int) (h hdr, ok bool) {
+func parseHdr(b []byte, off int) (h hdr, ok bool) { return parseHdrT(b, off, false) }
+
+// parseHdrT with tolerant=true also walks over a tag number with a leading 0x80
+// octet (not DER; encoding/asn1 refuses it), so that the repaired input keeps it
+// and the reference verdict stays with encoding/asn1.
+func parseHdrT(b []byte, off int, tolerant bool) (h hdr, ok bool) {
 	if off >= len(b) {
 		return
 	}
@@ -88,12 +93,12 @@ func parseHdr(b []byte, off int) (h hdr, ok bool) {
 		t := 0
 		n := 0
 		for {
-			if o >= len(b) || n == 4 {
+			if o >= len(b) || n == 5 {
 				return h, false
 			}
 			x := b[o]
 			o++
-			if n == 0 && x == 0x80 {
+			if n == 0 && x == 0x80 && !tolerant {
 				return h, false
 			}
 			t = t<<7 | int(x&0x7f)
@@ -290,7 +295,7 @@ func (n *normalizer) field(s *Shape, p fparams, lax bool, data []byte, off int) 
 		return nil, off, true
 	}
 	if s.K == KAny {
-		h, good := parseHdr(data, off)
+		h, good := parseHdrT(data, off, true)
 		if !good || off+h.hlen+h.length > len(data) {
 			return nil, off, false
 		}
@@ -312,7 +317,7 @@ func (n *normalizer) field(s *Shape, p fparams, lax bool, data []byte, off int) 
 		out = append(out, nc...)
 		return out, end, true
 	}
-	h, good := parseHdr(data, off)
+	h, good := parseHdrT(data, off, true)
 	if !good {
 		return nil, off, false
 	}
@@ -333,7 +338,7 @@ func (n *normalizer) field(s *Shape, p fparams, lax bool, data []byte, off int) 
 			} else if h.length > 0 {
 				oh := h
 				outer = &oh
-				h, good = parseHdr(data, o)
+				h, good = parseHdrT(data, o, true)
 				if !good {
 					return nil, off, false
 				}
